@@ -71,7 +71,9 @@ Inductive lin :=
 | LTraceI (a : lin)           (* Trace(a) * np.eye(n)                           *)
 | LDir (b : nat -> R)         (* u.grad.dot(b): derivative of a scalar field along b -> scalar *)
 | LScale (c : nat -> R) (a : lin)   (* coefficient field (value per Gauss point) * a *)
-| LAdd (a b : lin).
+| LAdd (a b : lin)
+| LMatL (A : nat -> nat -> R) (a : lin).   (* A @ a : constant matrix applied on the LEFT of a vector
+                                              (A @ u, A @ u.grad ...); u @ A is LMatL (transpose A) *)
 
 Fixpoint dlin (e : lin) (p : nat) (d : fdata) : T :=
   match e with
@@ -84,6 +86,7 @@ Fixpoint dlin (e : lin) (p : nat) (d : fdata) : T :=
   | LDir b => fun k l => if Nat.eqb k 0 && Nat.eqb l 0 then sumn n (fun m => b m * fgrad d m 0%nat) else 0
   | LScale c a => fun k l => c p * dlin a p d k l
   | LAdd a b => fun k l => dlin a p d k l + dlin b p d k l
+  | LMatL A a => fun k l => sumn n (fun m => A k m * dlin a p d m l)
   end.
 
 (* bilinear forms: full contraction (dot of vectors, ddot of matrices, product of scalars)
@@ -114,6 +117,7 @@ Proof.
     rewrite <- sumn_plus. apply sumn_ext. intros; ring.
   - rewrite IHe. ring.
   - rewrite IHe1, IHe2. ring.
+  - rewrite <- sumn_plus. apply sumn_ext. intros; rewrite IHe; ring.
 Qed.
 
 Lemma dlin_scal : forall e p s x k l, dlin e p (fscal s x) k l = s * dlin e p x k l.
@@ -129,6 +133,7 @@ Proof.
     rewrite <- sumn_scal. apply sumn_ext. intros; ring.
   - rewrite IHe. ring.
   - rewrite IHe1, IHe2. ring.
+  - rewrite <- sumn_scal. apply sumn_ext. intros; rewrite IHe; ring.
 Qed.
 
 Lemma dlin_zero : forall e p k l, dlin e p fzero k l = 0.
@@ -144,6 +149,7 @@ Proof.
     rewrite (sumn_ext n _ (fun _ => 0)); [apply sumn_zero | intros; ring].
   - rewrite IHe. ring.
   - rewrite IHe1, IHe2. ring.
+  - rewrite (sumn_ext n _ (fun _ => 0)); [apply sumn_zero | intros; rewrite IHe; ring].
 Qed.
 
 (* every form of the grammar denotes a BILINEAR map of (u-data, v-data) at each point *)
